@@ -951,7 +951,10 @@ def run(ctx):
             jobs.append(("wide", pool.submit(run_tlc_export, ctx, f"wide{gi}", "TestifyMockGen",
                                              cfg_text("TestifyMock_thorough.cfg", Classes="<- GenClasses", Level="= 2", MaxCalls="= 1"),
                                              files={"TestifyMockGen.tla": gen_module(g)}, timeout=2400)))
-        for gi, g in enumerate(split(ids, 3)):
+        # several expectations against each other: the curated classes and every third class of the shape product
+        extra = [i for i in ids if i.startswith("t")]
+        pair_thorough = [i for i in ids if not i.startswith("t")] + extra[::3]
+        for gi, g in enumerate(split(pair_thorough, 3)):
             jobs.append(("pair", pool.submit(run_tlc_export, ctx, f"pair{gi}", "TestifyMockGen",
                                              cfg_text("TestifyMock_quickpair.cfg", Classes="<- GenClasses"),
                                              files={"TestifyMockGen.tla": gen_module(g)}, timeout=2400)))
